@@ -165,6 +165,12 @@ def negatives(tb, node):
         seen.add(txt)
         if txt.startswith("BEFORE:") or tb.accepts(node, txt) is None:
             yield kind, txt
+    # unit text of two words whose last word is a unit of the class: still not a unit of the class
+    own = [u for cname in sorted(mine) for u, d in m.unit_classes[cname]["units"].items()
+           if " " not in u and "unitPrefix" not in d["attrs"] and "deprecatedFrom" not in d["attrs"]]
+    for u in own[:3]:
+        for first in ("qzx", u, "3"):
+            yield "extra-word-before-unit", f"{first} {u}"
 
 
 def tag_text(node, value):
